@@ -47,7 +47,7 @@ PY
 done
 if [ $R0 -eq 0 ] && [ $R1 -ne 0 ] && [ $FAILS -eq 0 ]; then
   D=/verif/seeded/$ID; mkdir -p $D/demo
-  git -C $S diff HEAD > $D/patch.diff
+  git -C $S checkout -- proxy/src/services/lunar-engine/streams/validation/policies.yaml 2>/dev/null; git -C $S diff HEAD > $D/patch.diff
   for d in "${DEMOS[@]}"; do mkdir -p $D/demo/$(dirname $d); cp $AW/$d $D/demo/$d; done
   cp $AW/MUT/README.md $D/README.agent.md 2>/dev/null
   echo "CONFIRMED $ID -> $D"
